@@ -374,6 +374,34 @@ def manifold_test(rep, prog):
                 euler = n
         if neg and is_call(c) and c.get("callee") in ("std::all_of",) and ("is_manifold" in render(c) or "is_manifold" in __import__("json").dumps(c)) and "edge_set_" in render(c):
             edges = n
+    # the same two tests written otherwise: a loop over edge_set_ that returns false at the first edge that is not manifold;
+    # `return V - E + F == 2;` as the last statement
+    from ..model import facts_at
+    fi = prog.index(fn)
+    if edges is None:
+        for loop in walk(fn["body"]):
+            if loop.get("k") == "CXXForRangeStmt" and "edge_set_" in render(loop.get("range") or {}):
+                var = loop["var"].get("did")
+                for r in walk(loop["body"]):
+                    if r.get("k") == "ReturnStmt" and render(r.get("value") or {}).strip() in ("false", "0"):
+                        fs = facts_at(fn, fi, r, stop_at=loop)
+                        if len(fs) == 1 and fs[0][0].get("k") == "CXXMemberCallExpr" and fs[0][0].get("callee") == "edge::is_manifold" and fs[0][1] is False and strip(call_obj(fs[0][0]) or {}).get("k") == "DeclRefExpr" and strip(call_obj(fs[0][0]))["ref"].get("did") == var \
+                                and fi.enclosing(loop, ("IfStmt", "ForStmt", "WhileStmt", "CXXForRangeStmt")) is None:
+                            edges = loop
+    if euler is None:
+        for r in walk(fn["body"]):
+            if r.get("k") == "ReturnStmt" and isinstance(r.get("value"), dict) and fi.enclosing(r, ("IfStmt", "ForStmt", "WhileStmt", "CXXForRangeStmt", "LambdaExpr")) is None:
+                c = strip(r["value"])
+                while c.get("k") in ("ParenExpr", "ImplicitCastExpr") and c.get("c"):
+                    c = strip(c["c"][0])
+                if c.get("k") == "BinaryOperator" and c.get("op") == "==":
+                    try:
+                        d = sp.expand(sp.sympify(ev.ev(c["c"][0])) - sp.sympify(ev.ev(c["c"][1])))
+                    except S.Decline:
+                        continue
+                    d = d.subs({a: sp.Symbol(re.sub(r"^trunc_\w+\((.*)\)$", r"\1", a.name), real=True) for a in d.free_symbols})
+                    if sp.expand(d - want) == 0 or sp.expand(d + want) == 0:
+                        euler = r
     if edges is not None:
         rep.ok(rule, prog, fn, edges, "returns false unless every edge of edge_set_ has exactly two faces")
     else:
